@@ -50,7 +50,7 @@ def build(kind, file, func):
     return Contract(
         id='%s.%s' % (kind, func), file=file, func=func, serves=['C17'],
         params={'grammarOptions': Any}, inline=['lexerFactory'],
-        raises={'PySmiError': 'True'},
+        raises={'PySmiError': 'True'}, notes=['standalone'],
         ensures={
             'rejects_exactly_an_unknown_option_that_is_asked_for': 'iff(raised, UNKNOWN)',
             'rejects_with_the_package_error': 'implies(raised, is_exc(exc, "PySmiError"))',
